@@ -1015,7 +1015,7 @@ def run_c14(ctx):
     for text, kind, wrap in wellformed_texts(ctx, ctx.n(150, 3000))[:: ctx.n(2, 1)]:
         wf.append(ctx.case(kind + "-after-directives", rng.choice(DIR_PREFIXES) + text, gen.DEFAULT_CFG))
     wf += witness_cases(ctx, "C14")
-    ctx.run_stream(wf, units=["passes", "kernel", "linescover", "parents", "eofline", "consolidators"])
+    ctx.run_stream(wf, units=["passes", "kernel", "grammar", "linescover", "parents", "eofline", "consolidators"])
     inv = []
     texts = [s["text"] for s in gen.seeds()]
     for _ in range(ctx.n(1500, 30000)):
@@ -1026,7 +1026,7 @@ def run_c14(ctx):
         inv.append(ctx.case("directives", directive_heavy(rng, rng.randrange(2, 30)), gen.DEFAULT_CFG))
     for _ in range(ctx.n(100, 2000)):
         inv.append(ctx.case("bytes", gen.random_bytes_text(rng, rng.randrange(1, 60)), gen.DEFAULT_CFG))
-    ctx.run_stream(inv, units=["passes", "kernel", "linescover", "consolidators"])
+    ctx.run_stream(inv, units=["passes", "kernel", "grammar", "linescover", "consolidators"])
     ctx.hypotheses["side conditions of C14_final_lines_cover: each pass consumed to its end; skip_token only skips compiler directives"] = "unit kernel on every case (valid and invalid): replays the hook's event log through the kernel model, compares with the real pass lines and the real final lines, evaluates both side conditions"
     ctx.hypotheses["parent and Eof-line clauses (well-formed input): grammar facts"] = "extracted predicates parents_ok / eof_line_ok on the real parse result"
 
@@ -1093,7 +1093,7 @@ def run_c04(ctx):
     r = rdeep.get(deep.id)
     if r is not None and r.failure is not None:
         ctx.fail("abort", deep, r.failure[0] + " " + r.failure[1], site="stack-overflow", depth=200000)
-    ctx.run_stream(cases, units=["passes", "cursor"], panics_are_failures=True, per_case_timeout=1.0, case_limit_ms=15000, slow_ms=3000)
+    ctx.run_stream(cases, units=["passes", "cursor", "grammar"], panics_are_failures=True, per_case_timeout=1.0, case_limit_ms=15000, slow_ms=3000)
     ctx.oracle_counts["max_case_ms"] = getattr(ctx, "max_ms", 0)
     if not ctx.quick():
         # the plain release profile (no overflow checks): wrap-around instead of panic must not hang or crash either
@@ -1612,7 +1612,7 @@ def run_c05(ctx):
                 ctx.fail("statement_wrong_indentation", c, "%s at depth %d is indented by %r, expected %d units of %r: %r" % (kind, depth, lead, depth, unit, out[ls:pos + 15]), observed=r.out.hex()[:3000])
                 return
 
-    ctx.run_stream(cases, units=["levels", "linescover", "eofline", "canon"], oracle=oracle)
+    ctx.run_stream(cases, units=["levels", "grammar", "linescover", "eofline", "canon"], oracle=oracle)
     ctx.hypotheses["grammar assigns level d+1 inside a block opened at level d; one logical line per statement"] = "generator-marked statement heads checked against line starts and indentation of the real output"
     ctx.hypotheses["H-W1: first token of a top-level line breaks at `level` indentations"] = "unit levels on every trace"
 
